@@ -5,8 +5,11 @@ a sandbox directory under /tmp (removed afterwards).
 
 RECORDING.  While the real save() runs, the file-system primitives are wrapped FROM THE
 HARNESS (no source hook): builtins.open / io.open / _io.open, os.open + os.fdopen +
-os.write + os.close, os.replace / os.rename, os.link, os.unlink / os.remove, os.fsync /
-os.fdatasync; shutil's sendfile / copy_file_range fast paths are switched off so that
+os.write + os.close (also with dir_fd= relative to a sandbox directory descriptor, unnamed
+O_TMPFILE files and their naming through link("/proc/self/fd/N")), os.replace / os.rename,
+os.link, os.unlink / os.remove, os.fsync / os.fdatasync; every OTHER os function that is
+called with a sandbox path is reported as an operation the model lacks (metadata calls such as
+chmod / utime excepted); shutil's sendfile / copy_file_range fast paths are switched off so that
 shutil.copyfile / copy / move go through the wrapped open / write / rename.  Files opened
 for writing inside the sandbox are proxied (write / flush / close recorded).  Each operation
 is recorded twice: RAW (lexical path relative to the sandbox, per-open file id) and as a
@@ -252,6 +255,7 @@ class Recorder:
         self.raw, self.words = [], []
         self.open_files = set()
         self.raw_fds = {}                 # os.open descriptors not (yet) wrapped: fd -> (fid, key)
+        self.dir_fds = {}                 # descriptors of sandbox directories (for dir_fd= arguments): fd -> path
         self.fail_write = fail_write
         self.fault_at, self.fault_errno = fault_at, fault_errno
         self.attempts, self.fault_kind = 0, None
@@ -278,6 +282,23 @@ class Recorder:
 
     def rel(self, a):
         return os.path.relpath(a, self.root)
+
+    def at(self, p, dir_fd):
+        """the path a call with dir_fd= refers to"""
+        if dir_fd is None or isinstance(p, int):
+            return p
+        base = self.dir_fds.get(dir_fd)
+        p = os.fsdecode(os.fspath(p))
+        return p if (base is None or os.path.isabs(p)) else os.path.normpath(os.path.join(base, p))
+
+    def fid_of_fd(self, n):
+        for px in list(self.open_files):
+            try:
+                if px._fh.fileno() == n:
+                    return px._fid, px._key
+            except Exception:
+                pass
+        return self.raw_fds.get(n)
 
     def tok(self, key):
         """model token of an identity path; p0 = what the settings path denotes right now"""
@@ -353,20 +374,36 @@ class Recorder:
                 rec.add(("x", "open-" + mode), "unknown-open-" + mode.replace(":", ""))
             return wrap(fh, fid, key, encoding)
 
+        O_TMPFILE = getattr(os, "O_TMPFILE", 0)
+
         def osopen(path, flags, mode=0o777, *a, **k):
-            ap = rec.inside(path) if not isinstance(path, int) else None
-            acc = flags & (os.O_WRONLY | os.O_RDWR)
-            if ap is None or not acc or k.get("dir_fd") is not None:
+            dfd = k.get("dir_fd")
+            if dfd is not None and dfd not in rec.dir_fds:
                 return os_open(path, flags, mode, *a, **k)
+            ap = rec.inside(rec.at(path, dfd)) if not isinstance(path, int) else None
+            acc = flags & (os.O_WRONLY | os.O_RDWR)
+            if ap is None:
+                return os_open(path, flags, mode, *a, **k)
+            if not acc:
+                fd = os_open(path, flags, mode, *a, **k)
+                if os.path.isdir(ap):
+                    rec.dir_fds[fd] = ap
+                return fd
             rec.attempt("open")
-            key, fid = os.path.realpath(ap), rec.new_fid()
+            fid = rec.new_fid()
             fd = os_open(path, flags, mode, *a, **k)
-            if flags & (os.O_APPEND | os.O_RDWR):
-                rec.add(("x", "os.open-%o" % flags), "unknown-os-open-%o" % flags)
-            elif flags & os.O_TRUNC:
-                rec.add(("o", fid, rec.rel(ap), True), "o:" + rec.tok(key))
+            if O_TMPFILE and (flags & O_TMPFILE) == O_TMPFILE:
+                # an unnamed file in directory `ap`; it gets a name only through link()
+                key = "<anon%d>" % fid
+                rec.add(("t", fid, rec.rel(ap)), "o:" + rec.tok(key))
             else:
-                rec.add(("o", fid, rec.rel(ap), False), "k:" + rec.tok(key))
+                key = os.path.realpath(ap)
+                if flags & (os.O_APPEND | os.O_RDWR):
+                    rec.add(("x", "os.open-%o" % flags), "unknown-os-open-%o" % flags)
+                elif flags & os.O_TRUNC:
+                    rec.add(("o", fid, rec.rel(ap), True), "o:" + rec.tok(key))
+                else:
+                    rec.add(("o", fid, rec.rel(ap), False), "k:" + rec.tok(key))
             rec.raw_fds[fd] = (fid, key)
             return fd
 
@@ -395,6 +432,7 @@ class Recorder:
             return os_write(fd, data)
 
         def osclose(fd):
+            rec.dir_fds.pop(fd, None)
             if fd in rec.raw_fds:
                 fid, key = rec.raw_fds.pop(fd)
                 rec.add(("c", fid), "c:" + rec.tok(key))
@@ -402,10 +440,29 @@ class Recorder:
 
         def mv(real, hard=False):
             def f(src, dst, *a, **k):
-                s, d = rec.inside(src), rec.inside(dst)
-                if (s is None and d is None) or k.get("src_dir_fd") is not None or k.get("dst_dir_fd") is not None:
+                sfd, dfd = k.get("src_dir_fd"), k.get("dst_dir_fd")
+                if (sfd is not None and sfd not in rec.dir_fds) or (dfd is not None and dfd not in rec.dir_fds):
                     return real(src, dst, *a, **k)
-                if os.path.lexists(src):
+                srcp, dstp = rec.at(src, sfd), rec.at(dst, dfd)
+                s, d = rec.inside(srcp), rec.inside(dstp)
+                proc = str(srcp).startswith("/proc/self/fd/") and hard
+                if s is None and d is None:
+                    return real(src, dst, *a, **k)
+                if proc and d is not None:
+                    # giving an open (unnamed) file a name
+                    hit = rec.fid_of_fd(int(str(srcp).rsplit("/", 1)[1]))
+                    rec.attempt("link")
+                    td = rec.tok(entry(d))
+                    res = real(src, dst, *a, **k)
+                    if hit is None:
+                        rec.add(("x", "link-of-unknown-fd"), "unknown-link")
+                    else:
+                        rec.add(("L", hit[0], rec.rel(d)), "r:%s:%s" % (rec.tok(hit[1]), td))
+                        for px in list(rec.open_files):
+                            if px._fid == hit[0]:
+                                px.__dict__["_key"] = entry(d)
+                    return res
+                if os.path.lexists(srcp):
                     rec.attempt("link" if hard else "rename")
                 ks = entry(s) if s else "<outside>"
                 kd = entry(d) if d else "<outside>"
@@ -424,10 +481,13 @@ class Recorder:
 
         def rm(real):
             def f(p, *a, **k):
-                ap = rec.inside(p)
-                if ap is None or k.get("dir_fd") is not None:
+                dfd = k.get("dir_fd")
+                if dfd is not None and dfd not in rec.dir_fds:
                     return real(p, *a, **k)
-                if os.path.lexists(p):
+                ap = rec.inside(rec.at(p, dfd))
+                if ap is None:
+                    return real(p, *a, **k)
+                if os.path.lexists(ap):
                     rec.attempt("unlink")
                 t = rec.tok(entry(ap))
                 res = real(p, *a, **k)
@@ -601,6 +661,11 @@ class _Replayer:
             else:
                 self.fds[fid] = os.fdopen(os.open(self.p(rel), os.O_WRONLY | os.O_CREAT, 0o600), "wb", buffering=0)
             self.pend[fid] = b""
+        elif k == "t":
+            self.fds[op[1]] = os.fdopen(os.open(self.p(op[2]), os.O_TMPFILE | os.O_WRONLY, 0o644), "wb", buffering=0)
+            self.pend[op[1]] = b""
+        elif k == "L":
+            os.link("/proc/self/fd/%d" % self.fds[op[1]].fileno(), self.p(op[2]), follow_symlinks=True)
         elif k == "w":
             self.pend[op[1]] = self.pend.get(op[1], b"") + op[2]
         elif k in ("f", "c"):
